@@ -270,6 +270,10 @@ func runC01(c *Check) {
 	c.ruleEmptyMeansAllEmpty("R11")
 	c.ruleBenignSentinelsHandled("R12")
 	c.ruleTimeoutsFire("R14")
+	c.ruleRestartNotBehindStopping("R15")
+	c.ruleTruncationKeepsForkPoint("R16")
+	c.rulePendingSyncOnlyWhenPeerHasNoMore("R17")
+	c.rulePopMovesLastSavedHash("R18")
 	c.ruleFilledRequestsGoOut("R13", "handlers.(*HeadersHandler).Handle", "spynode.(*Node).processBlocks")
 }
 
